@@ -34,6 +34,7 @@ class Monitor:
         self.kdir = kdir
         self.G = self.K = self.W = 0
         self.G2 = 0
+        self.C = 0            # compile() calls alone: one per generated function
         self.total = dict(G=0, K=0, W=0, G2=0)
         self.gcodes = set()
         self._orig_compile = builtins.compile
@@ -62,6 +63,7 @@ class Monitor:
         def compile(*a, **k):
             if mon_self.active and from_kingdon(sys._getframe(1)):
                 note()
+                mon_self.C += 1
             return oc(*a, **k)
 
         def exec(source, globals=None, locals=None, **k):
@@ -142,7 +144,7 @@ class Monitor:
             self.total['W'] += 1
 
     def reset(self):
-        self.G = self.K = self.W = self.G2 = 0
+        self.G = self.K = self.W = self.G2 = self.C = 0
 
     def counts(self):
         return dict(G=self.G, K=self.K, W=self.W)
@@ -219,6 +221,20 @@ class Run10:
         return (op['alg'], op['kind'], op.get('op') or op.get('fn'), op.get('form'),
                 repr(op.get('params')), tuple(kd(a) for a in args), sym)
 
+    def cache_entries(self):
+        """All (operator dict, key pattern) pairs visible through the public Mapping API."""
+        out = set()
+        for alg in self.world.algebras:
+            if alg is None:
+                continue
+            for od in list(alg.registry.values()):
+                try:
+                    for k in list(od):
+                        out.add((id(od), k if isinstance(k, tuple) else repr(k)))
+                except Exception:
+                    pass
+        return out
+
     def opdict_and_keys(self, op, args):
         """(operator dict, keys_in) for calls of a single operator; None otherwise."""
         from kingdon import MultiVector
@@ -263,7 +279,7 @@ class Run10:
                     continue
                 # operands are built outside the observation window (their construction may use operators)
                 try:
-                    args = [ops.build_operand(world, op['alg'], r) for r in op.get('args', [])]
+                    args = ops.build_operands(world, op['alg'], op.get('args', []))
                 except SimAbort:
                     raise
                 except BaseException as e:
@@ -284,6 +300,11 @@ class Run10:
                     except Exception:
                         cached_before = False
                 m.watch_registry(world)
+                t.atomic += 1
+                try:
+                    entries_before = self.cache_entries()
+                finally:
+                    t.atomic -= 1
                 m.reset()
                 m.active = True
                 sim.begin_op(t, i, faults_by_op.get(i))
@@ -293,8 +314,24 @@ class Run10:
                 if isinstance(exc, SimAbort):
                     raise exc
                 counts = m.counts()
+                compiled = m.C
                 faulted = bool(f and f['fired']) or ((t.tid, i) in self.wrapper_faulted)
                 ok = out[0] != 'exc'
+                if ok and not faulted and compiled:
+                    # O4: every function compiled during a successful call is cached under a new (operator, key
+                    # pattern) entry - no generation for a pattern that is cached already, none that is thrown away
+                    t.atomic += 1
+                    try:
+                        new_entries = len(self.cache_entries() - entries_before)
+                    finally:
+                        t.atomic -= 1
+                    self.stats['o4_checked'] = self.stats.get('o4_checked', 0) + 1
+                    if new_entries != compiled:
+                        self.violations.append(dict(
+                            clause='O4', op=i, desc=op, events=counts,
+                            expected='every function compiled during a successful call is cached under a new (operator, '
+                                     'key pattern) entry', got=f'{compiled} functions compiled, {new_entries} new cache entries'))
+                        return
                 self.stats['ops'] += 1
                 sim.h.update(repr((i, counts, out[0], out[1] if out[0] == 'exc' else None)).encode())
                 kinds = value_kind_of_args(op)
